@@ -8,7 +8,7 @@ import BindgenModel.Model.CRegions
   `NAME|<cexpr outcome>|<emitted constant or - or dup>|<C value of NAME at end of header>|<regions>`
 
 `<expr>` is a comma separated prefix encoding:
-  `i:<literal text>`  `f:<n|f|l>:<hex f64 bits>:<hex f32 bits>`  `c:<pre>:<code>`  `s:<pre>:<hex bytes or ->`
+  `i:<literal text>`  `f:<n|f|l>:<hex f64 bits>:<hex f32 bits>:<dot-and-exponent 0|1>`  `c:<pre>:<code>`  `s:<pre>:<hex bytes or ->`
   `n:<name>`  `p`(1)  `u+ u- u~ u!`(1)  `b<op>`(2)  `?`(3)  `k:<ty>`(1)  `z:<ty>`  `j`(2)
 
 `c05 e style=<…> tr=<0|1> ty=<cty> NAME=<int> …` → `repr=<name>,<bits>,<signed> NAME=lit:<text>|alias:<target> …`
@@ -64,11 +64,11 @@ partial def parseE (toks : List String) : Option (Expr × List String) :=
       (match parseCInt text.toList with
        | some (dec, n, suf) => some (.int dec n suf, rest)
        | none => none)
-    | ["f", suf, b64, b32] =>
+    | ["f", suf, b64, b32, de] =>
       (match parseHexNat b64, parseHexNat b32 with
        | some x, some y =>
          let s : Option FSuffix := match suf with | "n" => some .none | "f" => some .f | "l" => some .l | _ => none
-         s.map fun s => (.flt s x y, rest)
+         s.map fun s => (.flt s x y (de == "1"), rest)
        | _, _ => none)
     | ["c", pre, code] =>
       (match parsePre pre, code.toNat? with
@@ -144,7 +144,7 @@ def cvalText : Option CVal → String
   | some (.flt t b) =>
     if t = .float then (if (f32 b).isNaN then s!"f:float:nan" else s!"f:float:{hexNat 8 b}")
     else s!"f:{tyName t}:{fltText b}"
-  | some (.str p b) => s!"s:{preName p}:{hexOfBytes b}"
+  | some (.str p b _) => s!"s:{preName p}:{hexOfBytes b}"
   | none => "none"
 
 def flagsText (f : Flags) : String :=
@@ -166,7 +166,8 @@ def handleMacros (toks : List String) : String :=
   let parsed := defToks.map parseDef
   if parsed.any Option.isNone then "bad-expr" else
   let defs := parsed.filterMap id
-  let cenv := cFinalEnv defs
+  let fe := cFinal defs
+  let cenv := fe.all
   let fb : String → Option Int := fun n =>
     if kv toks "fb" == some "1" then
       match clookup cenv n with
@@ -185,7 +186,7 @@ def handleMacros (toks : List String) : String :=
       | _, none => "-"
     let cv := match clookup cenv name with
       | some v => cvalText (some v)
-      | none => (match lastBody defs name with | some b => cOwn cenv b | none => "none")
+      | none => (match lastBody defs name with | some b => cOwn fe.operand b | none => "none")
     s!"{name}|{oc}|{em}|{cv}|{flagsText (defFlags tenv defs nf name body)}"
   " ".intercalate items
 
